@@ -30,6 +30,7 @@ CONSTANTS Strict,          \* BOOLEAN
 
 VARIABLES cnt,     \* stream key -> frames of that stream in the log (truth)
           msgs,    \* message id -> "posted" | "spawned"
+          mwhere,  \* message id -> <<thread, seq>> of its frame
           run,     \* run id -> stage
           sess,    \* session stream -> "none" | "open" | "ended"
           job,     \* job id -> "none" | "spawned" | "ended"
@@ -39,14 +40,14 @@ VARIABLES cnt,     \* stream key -> frames of that stream in the log (truth)
           recd,    \* <<stream, seq>> recorded in an emitter's late-join buffer
           execs,   \* workspace-mutating executions in progress (tool call ids, task ids)
           bad      \* violated guards: <<position, name>>
-mvars == <<cnt, msgs, run, sess, job, task, creq, cached, recd, execs, bad>>
+mvars == <<cnt, msgs, mwhere, run, sess, job, task, creq, cached, recd, execs, bad>>
 
 Get(f, k, d) == IF k \in DOMAIN f THEN f[k] ELSE d
 Put(f, k, v) == [x \in DOMAIN f \cup {k} |-> IF x = k THEN v ELSE f[x]]
 Empty == [x \in {} |-> "none"]
 Zero == [x \in {} |-> 0]
 
-MInit == /\ cnt = Zero /\ msgs = Empty /\ run = Empty /\ sess = Empty /\ job = Empty /\ task = Empty
+MInit == /\ cnt = Zero /\ msgs = Empty /\ mwhere = [x \in {} |-> <<"", 0>>] /\ run = Empty /\ sess = Empty /\ job = Empty /\ task = Empty
          /\ creq = {} /\ cached = Zero /\ recd = {} /\ execs = {} /\ bad = {}
 
 Rank == [none |-> 0, spawned |-> 1, selected |-> 2, compiled |-> 3, effects |-> 4, cursor |-> 5, ended |-> 6]
@@ -67,8 +68,9 @@ StageName(stage) == CASE stage = "selected" -> "SelectionOnceAfterSpawn"
 StageOf(t) == CASE t = "sel" -> "selected" [] t = "comp" -> "compiled" [] t = "fx" -> "effects" [] t = "cur" -> "cursor"
 
 \* ------------------------------------------------------------------ one frame whose line reached the log
-\* f = [sk, s, seq, t, r, m, j, st, tid]: stream kind, stream id, seq, frame type (short), run id,
-\* message id, job id, task status, tool call id ("" where a field does not apply).
+\* f = [sk, s, seq, t, r, m, j, st, tid, pt, ps, pm]: stream kind, stream id, seq, frame type (short), run id,
+\* message id, job id, task status, tool call id, and for lineage frames the source thread, the cut's seq and
+\* message id ("" / 0 where a field does not apply).
 Frame(f, pos) ==
   LET k == Key(f)
       n == Get(cnt, k, 0)
@@ -78,7 +80,11 @@ Frame(f, pos) ==
       cur == Get(run, r, "none")
       shape ==
         IF isC THEN {<<(f.t = "created") = (n = 0), "ThreadOpensWithCreationOnly">>,
-                     <<f.t \in {"branched", "handoff"} => n = 1, "LineageIsSecondFrame">>}
+                     <<f.t \in {"branched", "handoff"} => n = 1, "LineageIsSecondFrame">>,
+                     \* the recorded cut lies within the source thread as it is, and names one of its messages at or before the cut
+                     <<(f.t \in {"branched", "handoff"} /\ Get(cnt, "continuity:" \o f.pt, 0) > 0) => f.ps < Get(cnt, "continuity:" \o f.pt, 0), "LineageCutWithinSource">>,
+                     <<(f.t \in {"branched", "handoff"} /\ f.pm \in DOMAIN mwhere) => (mwhere[f.pm][1] = f.pt /\ mwhere[f.pm][2] <= f.ps), "LineageNamesSourceMessageAtOrBeforeCut">>,
+                     <<(Strict /\ f.t \in {"branched", "handoff"} /\ f.pm # "") => f.pm \in DOMAIN mwhere, "LineageNamesSourceMessageAtOrBeforeCut">>}
         ELSE IF isS THEN {<<(f.t = "ss") = (Get(sess, f.s, "none") = "none"), "SessionStartsOnceFirst">>,
                           <<Get(sess, f.s, "none") # "ended", "NothingAfterSessionEnd">>}
         ELSE IF isT THEN {<<(f.t = "tspawn") = (Get(task, f.s, "none") = "none"), "TaskOpensWithSpawnOnly">>,
@@ -103,6 +109,7 @@ Frame(f, pos) ==
      /\ cnt' = Put(cnt, k, n + 1)
      /\ msgs' = IF isC /\ f.t = "msg" THEN Put(msgs, f.m, "posted")
                 ELSE IF isC /\ f.t = "rs" /\ f.m # "" THEN Put(msgs, f.m, "spawned") ELSE msgs
+     /\ mwhere' = IF isC /\ f.t = "msg" THEN Put(mwhere, f.m, <<f.s, n>>) ELSE mwhere
      /\ run' = IF ~isC \/ r = "" THEN run
                ELSE IF f.t = "rs" THEN Put(run, r, "spawned")
                ELSE IF f.t \in {"sel", "comp", "fx", "cur"} THEN Put(run, r, StageOf(f.t))
@@ -118,26 +125,26 @@ Frame(f, pos) ==
 
 \* a workspace-mutating execution (a tool call that needs the permit, a task's process) begins / ends
 XBegin(id, pos) == /\ Flags(pos, {<<execs = {}, "NoOverlap">>}) /\ execs' = execs \cup {id}
-                   /\ UNCHANGED <<cnt, msgs, run, sess, job, task, creq, cached, recd>>
-XEnd(id, pos) == /\ execs' = execs \ {id} /\ UNCHANGED <<cnt, msgs, run, sess, job, task, creq, cached, recd, bad>>
+                   /\ UNCHANGED <<cnt, msgs, mwhere, run, sess, job, task, creq, cached, recd>>
+XEnd(id, pos) == /\ execs' = execs \ {id} /\ UNCHANGED <<cnt, msgs, mwhere, run, sess, job, task, creq, cached, recd, bad>>
 
 \* a line of frame seq q of continuity stream s reached the full sidecar: the truth log has it already,
 \* and the sidecar grows one frame at a time
 CacheAppend(s, q, pos) ==
   /\ Flags(pos, {<<q < Get(cnt, "continuity:" \o s, 0), "CacheNeverAheadOfTruth">>})
   /\ cached' = Put(cached, s, q + 1)
-  /\ UNCHANGED <<cnt, msgs, run, sess, job, task, creq, recd, execs>>
+  /\ UNCHANGED <<cnt, msgs, mwhere, run, sess, job, task, creq, recd, execs>>
 
 \* an emitter put frame <<s, q>> into its late-join buffer / handed it to the live channel
-Recorded(s, q, pos) == /\ recd' = recd \cup {<<s, q>>} /\ UNCHANGED <<cnt, msgs, run, sess, job, task, creq, cached, execs, bad>>
+Recorded(s, q, pos) == /\ recd' = recd \cup {<<s, q>>} /\ UNCHANGED <<cnt, msgs, mwhere, run, sess, job, task, creq, cached, execs, bad>>
 Published(s, q, pos) == /\ Flags(pos, {<<<<s, q>> \in recd, "RecordedBeforePublished">>})
-                        /\ UNCHANGED <<cnt, msgs, run, sess, job, task, creq, cached, recd, execs>>
+                        /\ UNCHANGED <<cnt, msgs, mwhere, run, sess, job, task, creq, cached, recd, execs>>
 
 \* the per-stream snapshot (sessions, tasks) was written with n frames: it holds every frame of the stream that is in the log
 Snapshot(s, n, pos) ==
   LET inlog == Get(cnt, "session:" \o s, 0) + Get(cnt, "task:" \o s, 0) IN
   /\ Flags(pos, {<<IF Strict THEN inlog = n ELSE inlog \in {0, n}, "SnapshotHasEveryLoggedFrame">>})
-  /\ UNCHANGED <<cnt, msgs, run, sess, job, task, creq, cached, recd, execs>>
+  /\ UNCHANGED <<cnt, msgs, mwhere, run, sess, job, task, creq, cached, recd, execs>>
 
 \* ================================================================== DESIGN half
 VARIABLES pc,      \* actor -> program counter
@@ -149,7 +156,7 @@ vars == <<mvars, dvars>>
 
 Actors == Runs \cup Jobs \cup Tasks
 Th(a) == ThreadOf[a]
-F(sk, s, t, r, m, j, st) == [sk |-> sk, s |-> s, seq |-> Get(cnt, sk \o ":" \o s, 0), t |-> t, r |-> r, m |-> m, j |-> j, st |-> st, tid |-> IF t = "fx" THEN r ELSE ""]
+F(sk, s, t, r, m, j, st) == [sk |-> sk, s |-> s, seq |-> Get(cnt, sk \o ":" \o s, 0), t |-> t, r |-> r, m |-> m, j |-> j, st |-> st, tid |-> IF t = "fx" THEN r ELSE "", pt |-> "", ps |-> 0, pm |-> ""]
 Go(a, from, to) == pc[a] = from /\ pc' = [pc EXCEPT ![a] = to]
 Keep == UNCHANGED <<holder, owed, fxlog>>
 ThreadOpen(t) == Get(cnt, "continuity:" \o t, 0) > 0
